@@ -33,7 +33,7 @@ func init() {
 		Technique: "deterministic consensus simulation over the real application: a Byzantine proposer (real key, its turn) gossips otherwise valid blocks with one consensus-level field corrupted and consistently re-hashed; trace oracle on the correct validators' votes, ApplyBlock outcome and the process-kill request",
 		Rule: "case = a 4-validator chain with the real LinkApplication behind each of 3 correct state machines; at the first turn of the Byzantine proposer at height >= Ht (Ht in 1..3) it proposes a block built by the real proposer path with one corruption from the enumerated list " +
 			"(chain id, height, LastBlockID, NumTxs/TotalTxs, ConsensusHash, ValidatorsHash, LastCommitHash/EvidenceHash inconsistency, LastCommit with <=2/3 / wrong round / wrong block / bad or transplanted signature / wrong size, evidence missing / doubled / wrong proposer / forged duplicate-vote evidence); " +
-			"violation = a correct node prevotes or precommits that block, ApplyBlock fails after a commit, the node asks to be killed (SIGTERM to self), or the state machine panics. non-trivial = the corrupted proposal was completely delivered to >= 1 correct node in Propose step; distinct by (corruption, height)",
+			"violation = a correct node prevotes or precommits that block, ApplyBlock fails after a commit, the node asks to be killed (SIGTERM to self), or the state machine panics. non-trivial = the corrupted proposal was completely delivered to >= 1 correct node in Propose step; distinct by (corruption, height and round, power set, schedule counters)",
 		Assumptions: []string{"application-level execution stays valid (blocks are built by the real CreateBlock/PreRunBlock on a correct replica)", "the Byzantine validator holds exactly 1/4 of the power and acts only as proposer"},
 		Cases: func(tier string) int {
 			if tier == "thorough" {
@@ -610,7 +610,9 @@ func run(c *core.Ctx) {
 		}
 		if nilPrevotes > 0 {
 			c.Count("corrupted_proposals_delivered", 1)
-			c.Nontrivial(fmt.Sprintf("%s@%d", cor.Name, corruptedAt[0]))
+			// distinct by corruption, position, power set and the schedule's counters (two cases with the same
+			// corruption at the same height still differ in validators, round and delivery order)
+			c.Nontrivial(fmt.Sprintf("%s@%v/%v/%d-%d-%d", cor.Name, corruptedAt, powers, sim.Steps, sim.Delivered, sim.TimeoutsFired))
 		}
 		if recovered && !sim.Mon.Fatal() {
 			c.Count("recovered_next_round_commit", 1)
